@@ -57,7 +57,7 @@ def _s(x):
 
 
 class Agent:
-    def __init__(self, log=None, delay_ms=0, delay_seed=0, delay_under=None, crash_under=None, crash_at=None, only_threads=False):
+    def __init__(self, log=None, delay_ms=0, delay_seed=0, delay_under=None, crash_under=None, crash_at=None, only_threads=False, delay_read_ms=0, delay_read_re=None):
         self.fd = os.open(log, os.O_WRONLY | os.O_CREAT | os.O_APPEND, 0o644) if log else None
         self.seq = 0
         self.delay_ms = delay_ms
@@ -72,6 +72,10 @@ class Agent:
         self.in_hook = threading.local()
         self.mut_log = []  # (event, path) of mutating events under crash_under (recording pass)
         self.record_mut = False
+        # delay injection at *reads* of mutable shared files (widens check-then-read windows)
+        self.delay_read_ms = delay_read_ms
+        import re as _re
+        self.delay_read_re = _re.compile(delay_read_re) if delay_read_re else None
 
     def hook(self, event, args):
         if not self.enabled or event not in FS_EVENTS:
@@ -107,6 +111,10 @@ class Agent:
                         self.mut_log.append((event, p, _s(args[1]) if len(args) > 1 else None, args[2] if event == "open" and len(args) > 2 and isinstance(args[2], int) else None))
                     if self.crash_at is not None and self.mut_count == self.crash_at:
                         os._exit(137)
+            if (not mut) and event == "open" and self.delay_read_ms and self.delay_read_re is not None and isinstance(a0, str) and self.delay_read_re.search(a0):
+                with self.lock:
+                    d = self.rng.random() * self.delay_read_ms / 1000.0
+                time.sleep(d)
             if mut and self.delay_ms and isinstance(a0, str):
                 if self.delay_under is None or os.path.abspath(a0).startswith(self.delay_under):
                     if not self.only_threads or threading.current_thread() is not threading.main_thread():
